@@ -2,9 +2,10 @@
     IncrementProposerPriority, RescalePriorities, shiftByAvgProposerPriority,
     incrementProposerPriority, computeAvgProposerPriority, computeMaxMinPriorityDiff,
     getValWithMostPriority, GetProposer/findProposer, TotalVotingPower,
-    updateWithChangeSet and its helpers, Copy) and of Validator.CompareProposerPriority
+    updateWithChangeSet and its helpers, Copy, CopyIncrementProposerPriority) and of Validator.CompareProposerPriority
     (types/validator.go), and of calculateValidatorSetUpdates / the validator part of updateState
-    (kai/state/cstate/execution.go), transcribed branch by branch from the code as it is today
+    (kai/state/cstate/execution.go: the three validator sets, LastBlockHeight and
+    LastHeightValidatorsChanged of LatestBlockState), transcribed branch by branch from the code as it is today
     (computeMaxMinPriorityDiff as repaired by eb47a62).
 
     Conventions.  An address is the number whose 20-byte big-endian encoding it is, so
